@@ -23,6 +23,10 @@ CHECKS = {
    text="The seven real PodsFilter constructors, ingress.ServicesFilter, pod.NodeFilter, event.InvolvedFilter/InvolvedObjectFilter and service.SelectorMatchFilter are executed symbolically on <=2-3 symbolic workloads (symbolic namespaces, names, selectors, template labels) and a symbolic candidate object of a solver-chosen kind; z3 shows Accept equals the ownership rule written from the property text for every value within the bound.",
    note="Bounds: quick W<=2 workloads with matchLabels-only selectors plus W<=1 with one matchExpression; thorough W<=3 / W<=2 with expressions; ingress <=2 ingresses with default backend and <=1 (2) rules x 1 path; label maps <=2 pairs. Workload namespaces are assumed non-empty (namespaced API objects). Known finding F6 (replication controller filter ignores the namespace) is listed in KNOWN_FINDINGS.txt.",
    ref="DESIGN.md §4 C19"),
+ "C17": dict(
+   text="FiltersEqual and every real Equals/Accept (nullFilter, allFilter, notFilter, andFilter, orFilter, nsNameFilter, selectorFilter, fnFilter, nodeFilter, involvedFilter, serviceForFilter, the seven PodsFilter, ServicesFilter) are executed symbolically on two independently built filters with solver-chosen structure and symbolic arguments plus a symbolic object; z3 shows that whenever equality is reported both filters agree on the object, that nil / non-comparable cases follow the contract, and that filters built twice from the same arguments (workload filters also from the reversed argument order) compare equal, for every value within the bound.",
+   note="Bounds: generic terms to depth 2 (thorough 3) over {Null, All, arbitrary leaf, NSName, Labels, FN, Not, And, Or} with arity <=2; NSName <=2 (3) ids per side; Labels/LabelSelector/Selector pairs with <=2 pairs and <=1 expression; typed pairs one workload per side (same-argument and reversed-order checks with <=2 workloads). reflect.DeepEqual is modelled structurally (documented rules); label keys are assumed non-empty; selectors with two requirements on the same key are outside the claim.",
+   ref="DESIGN.md §4 C17"),
 }
 NOT_APPLICABLE = {}
 PENDING = "check under construction in this session: harness not yet registered (no claim is made)"
